@@ -9,6 +9,7 @@ pub mod c06;
 pub mod c07;
 pub mod c08;
 pub mod c10;
+pub mod c13;
 pub mod c14;
 pub mod c16;
 
@@ -26,6 +27,7 @@ pub fn run(ctx: &Ctx) -> bool {
         "C07" => c07::run(ctx),
         "C08" => c08::run(ctx),
         "C10" => c10::run(ctx),
+        "C13" => c13::run(ctx),
         "C14" => c14::run(ctx),
         "C16" => c16::run(ctx),
         _ => return false,
@@ -45,6 +47,7 @@ pub fn replay(prop: &str, _kind: &str, case: &J) -> Option<Verdict> {
         "C07" => c07::replay(case),
         "C08" => c08::replay(case),
         "C10" => c10::replay(case),
+        "C13" => c13::replay(case),
         "C14" => c14::replay(case),
         "C16" => c16::replay(case),
         _ => None,
